@@ -7,7 +7,7 @@
 
 PROPS = {
     'C01': {
-        'units': ['engine', 'engine_build'],
+        'units': ['engine', 'engine_build', 'depids'],
         'design_ref': 'DESIGN.md section 4, C01 and appendix A (lemma L1)',
         'claim': 'the step contracts of lemma L1 on the real engine functions: scanRule decides never-built / signature / validity in that order and '
                  'declares a rule up to date without a scan only if nothing is recorded; demandRule stamps builtAt with the current epoch exactly '
@@ -24,7 +24,7 @@ PROPS = {
         'not_decided': ['the shadow-epoch history argument of the property (every step of it is proved, the induction is lemma L1)', 'breakCycle (Forced)'],
     },
     'C03': {
-        'units': ['sqlite', 'engine_build'],
+        'units': ['sqlite', 'engine_build', 'depids'],
         'design_ref': 'DESIGN.md section 4, C03',
         'claim': 'lookupRuleResult reads every field of a stored result from the column the SELECT text names for it (both the fast and the join path; '
                  'the column order is parsed from the SQL literals on every run), decodes the dependency blob word by word into (key of id, order-only, '
@@ -115,12 +115,12 @@ PROPS = {
                         'recursive directory removal (FileSystem::remove)'],
     },
     'C15': {
-        'units': ['buildkey'],
+        'units': ['buildkey', 'buildvalue'],
         'design_ref': 'DESIGN.md section 4, C15',
         'claim': 'BuildKey: kind tag <-> kind maps are inverse on the nine kinds and distinct (spec table checked for distinctness), getKind reads the '
                  'tag byte, and every accessor of the two wire shapes returns exactly the length-delimited name / payload span for arbitrary bytes '
-                 '(keys shorter than 2^32 bytes)',
-        'not_decided': ['the key constructors (std::string building)', 'BuildValue toData / decoder and StringList', 'BinaryEncoder / BinaryDecoder scalar codecs'],
+                 '(keys shorter than 2^32 bytes); BuildValue: a kind\'s signature / output infos / string list are encoded and decoded exactly when its factory takes them',
+        'not_decided': ['the key constructors (std::string building)', 'BuildValue toData / decoder loops and StringList (only the three payload predicates they branch on are under contract)', 'BinaryEncoder / BinaryDecoder scalar codecs'],
     },
     'C17': {
         'units': ['ninja_lex'],
@@ -128,6 +128,15 @@ PROPS = {
         'claim': 'Ninja lexer: a keyword kind is produced exactly when the token bytes are the whole keyword, every byte value '
                  '0x00-0xFF is returned as itself (end of file only at the true end), identifier-specific mode never yields keywords',
         'not_decided': ['agreement of scoping / variable evaluation with Ninja itself (needs Ninja as oracle)', 'include/subninja scoping', 'the parser'],
+    },
+    'C18': {
+        'units': ['ninja_valid'],
+        'design_ref': 'DESIGN.md section 4, C18',
+        'claim': 'validity predicates only: a Ninja command result is valid only if it was a success, the command hash is unchanged (generator commands '
+                 'excepted: "a changed command line re-runs its command") and every output exists with unchanged file information; an input is valid exactly '
+                 'when it was recorded as existing, still exists and is unchanged; a select-composite result exactly when successful with an unchanged hash',
+        'not_decided': ['convergence to the clean-build state, null rebuilds, order-only and depfile handling, restat/generator/pool semantics, failure '
+                        'propagation (closures over the build context)', 'decoding of the stored value (assumed pure)'],
     },
     'C19': {
         'units': ['mkdeps', 'depinfo', 'ninja_lex'],
